@@ -412,6 +412,11 @@ class Spectrum(object):
 
         # If sides is indeed different, update the psd
         if self.__psd is not None:
+            if self.modified is True and callable(self):
+                # bring the estimate up to date first (this also resets the
+                # current sides), so that the conversion never starts from,
+                # nor validates, a stale PSD
+                self.psd
             newpsd = self.get_converted_psd(sides)
             self.__psd = newpsd
         self.__sides = sides
